@@ -1,10 +1,11 @@
 """Profiles on the chain world with evolution operations (C09 real time, C10 imaginary time / thermal)."""
 from simlab import session, chain
 from simlab import chain_evolve  # noqa: F401  (registers ops)
+from simlab import chain_thermal  # noqa: F401  (registers ops)
 
 W_C09 = {"mps_random": 2.0, "mps_product": 1.2, "mpo_ham": 1.2, "expand": 2.0, "evolve": 8.0, "ensure": 0.6, "move_qnidx": 0.6, "canonicalise": 0.4,
          "unary": 0.6, "mpdm_from_mps": 0.5, "scale": 0.4, "drop": 0.2, "observe": 0.3}
-W_C10 = dict(W_C09, evolve=1.0, evolve_imag=7.0, mpdm_from_mps=1.0)
+W_C10 = dict(W_C09, evolve=1.0, evolve_imag=6.0, mpdm_from_mps=1.0, max_entangled=1.5, thermal_job=2.5, exact_prop=0.8, evolve_exact=1.5)
 
 
 class EvoProfile(session.Profile):
@@ -17,9 +18,11 @@ class EvoProfile(session.Profile):
     def gen_header(self, rnd, tier):
         h = chain.gen_header(rnd, nmodels=(1, 1), maxdim=rnd.choice([8, 16, 36]), nmax=rnd.choice([2, 3, 4]),
                              flavours=["spin", "spinqn", "eph", "eph", "mixed", "two"])
+        if self.pid == "C10" and rnd.random() < 0.45:
+            h["models"] = [chain_thermal.gen_holstein(rnd)]
         wts = dict(self.w)
         for k in list(wts):
-            if k not in ("mps_random", "mpo_ham", "evolve", "evolve_imag", "expand") and rnd.random() < 0.2:
+            if k not in ("mps_random", "mpo_ham", "evolve", "evolve_imag", "expand", "max_entangled", "thermal_job") and rnd.random() < 0.2:
                 wts[k] = 0.0
         h["weights"] = wts
         return h
